@@ -575,6 +575,89 @@ def rule_11(ctx):
     ctx.floor(220, 'spelling cells')
 
 
+def _npf_models():
+    """numpy_financial.pv / pmt: the documented closed forms (when = 'end' | 0 -> 0, 'begin' | 1 -> 1)."""
+    def when_(w):
+        return {'end': 0, 'begin': 1, 0: 0, 1: 1}[w]
+
+    def pv(rate, nper, pmt, fv=0, when='end'):
+        if any(isinstance(x, bool) or not isinstance(x, (int, float)) for x in (rate, nper, pmt, fv)):
+            raise Unmodelled('numpy_financial.pv on non-numbers')
+        w = when_(when)
+        if rate == 0:
+            return -(fv + pmt * nper)
+        t = (1 + rate) ** nper
+        return -(fv + pmt * (1 + rate * w) / rate * (t - 1)) / t
+
+    def pmt(rate, nper, pv, fv=0, when='end'):
+        if any(isinstance(x, bool) or not isinstance(x, (int, float)) for x in (rate, nper, pv, fv)):
+            raise Unmodelled('numpy_financial.pmt on non-numbers')
+        w = when_(when)
+        if rate == 0:
+            return -(fv + pv) / nper
+        t = (1 + rate) ** nper
+        return -(fv + pv * t) / ((1 + rate * w) / rate * (t - 1))
+    return {'ext:numpy_financial.pv': pv, 'ext:numpy_financial.pmt': pmt}
+
+
+CALL_FORMS = [
+    # (function, the reference call by position, other spellings of the same call: (positional, keywords in the written order))
+    ('PV', (0.05, 10, -100, 0, 1), [((0.05, 10, -100), {'type': 1}), ((0.05, 10, -100), {'type': '1'}), ((0.05, 10, -100), {'type': '1.0'}), ((0.05, 10, -100), {'type': True}),
+                                     ((0.05, 10), {'pmt': -100, 'type': 1, 'fv': 0}), ((0.05, 10, -100), {'fv': '0', 'type': '1e0'}), ((0.05, 10, -100), {'type': 1, 'fv': 0}),
+                                     ((), {'rate': 0.05, 'nper': 10, 'pmt': -100, 'type': 1}), ((), {'type': 1, 'pmt': -100, 'nper': 10, 'rate': 0.05}),
+                                     (('0.05', '10', '-100', '0', '1'), {})]),
+    ('PV', (0.05, 10, -100, 50, 0), [((0.05, 10, -100), {'fv': 50}), ((0.05, 10, -100), {'fv': '50'}), ((0.05,), {'fv': 50, 'pmt': -100, 'nper': 10}), ((0.05, 10, -100, 50), {})]),
+    ('PMT', (0.05, 10, 1000, 0, 0), [((0.05, 10, 1000), {}), ((0.05, 10), {'pv': 1000}), ((), {'pv': '1000', 'nper': '10', 'rate': '0.05'}), ((0.05, 10, 1000), {'fv': 0})]),
+    ('LOG', (8, 2), [((8,), {'base': 2}), ((8,), {'base': '2'}), ((), {'number': 8, 'base': 2}), ((), {'base': 2, 'number': 8}), ((), {'base': '2.0', 'number': '8'})]),
+    ('LEFT', ('abcdef', 2), [(('abcdef',), {'num_chars': 2}), ((), {'text': 'abcdef', 'num_chars': '2'}), ((), {'num_chars': 2, 'text': 'abcdef'}), ((), {'num_chars': 2.0, 'text': 'abcdef'})]),
+    ('RIGHT', ('abcdef', 3), [((), {'num_chars': '3', 'text': 'abcdef'})]),
+    ('FIND', ('c', 'abcabc', 4), [(('c', 'abcabc'), {'start_num': 4}), ((), {'start_num': 4, 'within_text': 'abcabc', 'find_text': 'c'}), (('c',), {'start_num': 4, 'within_text': 'abcabc'})]),
+    ('MOD', (7, 3), [((), {'divisor': 3, 'number': 7}), ((7,), {'divisor': '3'})]),
+    ('POWER', (2, 5), [((), {'power': 5, 'number': 2}), ((), {'power': '5', 'number': '2'})]),
+    ('OP_SUB', (7, 2), [((), {'right': 2, 'left': 7}), ((7,), {'right': '2'})]),
+    ('OP_DIV', (7, 2), [((), {'right': 2, 'left': 7})]),
+    ('PV', (0.05, 10, -100, 0, 'abc'), [((0.05, 10, -100), {'type': 'abc'}), ((), {'type': 'abc', 'pmt': -100, 'nper': 10, 'rate': 0.05})]),
+    ('PV', (0.05, 10, -100, 'x', 1), [((0.05, 10, -100), {'type': 1, 'fv': 'x'})]),
+]
+
+
+def rule_12(ctx):
+    """The call protocol of the registered functions as library functions: a call written with keyword arguments - in any order,
+    after optional parameters that were left out, with values in any spelling - is the same call as the one written by position:
+    every argument is bound to its parameter by NAME, converted by that parameter's annotation, and errors are reported alike."""
+    from . import values as V
+    from xlsa.guards import ExcRaised
+
+    def nodate(*a, **k):
+        raise ExcRaised(Ref('builtin:ValueError'))
+    models = V.numpy_models()
+    models.update(_npf_models())
+    models['ext:dateutil.parser.parse'] = nodate
+    n = 0
+    for name, ref_args, forms in CALL_FORMS:
+        f = V.registered(ctx, name)
+
+        def outcome(a, k):
+            out = V.call(ctx, name, list(a), models=models, kwargs=dict(k))        # native Python values, as a caller of the library writes them
+            res = V.norm(out.value) if out.end == 'return' else (out.end, V.norm(out.value))
+            if isinstance(res, tuple) and len(res) == 2 and res[0] == 'error-class':
+                res = ('error', res[1])
+            return res
+        want = outcome(ref_args, {})
+        if isinstance(want, tuple) and want and want[0] == 'error':
+            want = ('error',) + want[1:]
+        for a, k in forms:
+            got = outcome(a, k)
+            same = got == want or (isinstance(got, tuple) and isinstance(want, tuple) and len(got) == len(want) == 2 and got[0] == want[0] == 'Number'
+                                   and isinstance(got[1], (int, float)) and isinstance(want[1], (int, float)) and abs(got[1] - want[1]) <= 1e-9 * max(1, abs(want[1])))
+            shown = ', '.join([repr(x) for x in a] + [f'{kk}={x!r}' for kk, x in k.items()])
+            n += 1
+            ctx.expect(same, f.node, f'{name}({shown}) is {name}{ref_args!r}',
+                       f'{name}({shown}) gives {got!r}, the same call written by position - {name}{ref_args!r} - gives {want!r}: keyword arguments are bound by '
+                       'name and converted like positional ones, in every order and spelling')
+    ctx.floor(40, 'keyword call forms')
+
+
 RULES = [
     ('C08.1', 'annotations are coercing aliases', rule_1),
     ('C08.2', 'cast table', rule_2),
@@ -587,4 +670,5 @@ RULES = [
     ('C08.9', 'numeric arguments: every spelling of a value gives the same outcome (through the registered wrapper)', rule_9),
     ('C08.10', 'arithmetic operators and & on every pair of scalar operand kinds (through the registered wrapper)', rule_10),
     ('C08.11', 'spellings of numeric text and text forms of numbers in a witness workbook', rule_11),
+    ('C08.12', 'library calls with keyword arguments are the calls written by position (binding by name, same conversions)', rule_12),
 ]
